@@ -276,15 +276,17 @@ ADDED3 = {
 }
 TECH3 = {
     'C05': '; abstract interpretation of the simplifier source on a finite expression family generated from the rule shapes (checker-side evaluator, no repository code imported)',
-    'C06': '; the simplifier evaluated from its source on a finite expression family',
-    'C07': '; the simplifier evaluated from its source on address spellings and concatenations',
+    'C06': '; the simplifier evaluated from its source on a finite expression family; abstract interpretation of the machine classes (mpool, eval_abs) from their source on a finite family of instruction histories against a concrete byte-level reference execution (checker-side evaluator, nothing of the repository imported)',
+    'C07': '; the simplifier evaluated from its source on address spellings and concatenations; abstract interpretation of the machine classes (mpool, eval_abs) from their source on a finite family of instruction histories against a concrete byte-level reference execution (checker-side evaluator, nothing of the repository imported)',
     'C13': '; idempotence and order-insensitivity evaluated from the simplifier source on a finite expression family',
     'C14': '; interpretation of the class source on the boundary domain spanned by the class declarations',
     'C15': '; interpretation of the node-class source on a finite expression family (implications only)',
     'C16': '; interpretation of get_r / get_w on a finite expression family against witnessed dependencies',
     'C10': '; call-chain resolution for frame introspection in error callbacks',
     'C12': '; alias analysis of tables handed out by lookup methods and of cached results',
-    'C17': '; finite evaluation of intsize / getdstflow / get_im_fmt',
+    'C17': '; finite evaluation of intsize / getdstflow / get_im_fmt and of the operand loop of _dis on immediate kind x operand size x boundary bytes',
+    'C01': '; finite evaluation of the operand loop of _dis on immediate kind x operand size x address size x boundary bytes',
+    'C09': '; finite evaluation of the AT&T grammar actions and of mnemo_from_att on branch operands',
     'C18': '; finite evaluation of the class matcher; freshness analysis of per-instance field objects',
 }
 
